@@ -1,0 +1,78 @@
+//! Verification hooks (cargo feature `verif-hooks`, off by default).
+//!
+//! Re-exports of crate-private command types and a tiny "gate" API that lets an external
+//! harness observe and order the record store's detached disk tasks. With no controller
+//! installed every gate is a no-op. Not part of the public API.
+#![allow(missing_docs)]
+
+pub use crate::cmd::{verif_get_peers_in_range, LocalSwarmCmd, NetworkSwarmCmd};
+pub use crate::record_store::{NodeRecordStoreConfig, VerifStoreSnapshot};
+pub use crate::replication_fetcher::verif::{VerifFetcher, VerifFetcherSnapshot};
+use std::future::Future;
+use std::pin::Pin;
+use std::sync::{Arc, RwLock};
+
+#[derive(Clone, Copy, Debug, PartialEq, Eq, Hash, PartialOrd, Ord)]
+pub enum GateKind {
+    DiskWrite,
+    DiskDelete,
+    MetricsFlush,
+}
+
+#[derive(Clone, Debug)]
+pub enum GateEvent {
+    /// A background task of this kind for this key is about to be spawned.
+    Announce(GateKind, Vec<u8>),
+    /// The task started running; the returned future is awaited before the task does its work.
+    Enter(GateKind, Vec<u8>),
+    /// The task finished (its guard was dropped).
+    Exit(GateKind, Vec<u8>),
+}
+
+pub type GateFn = Arc<dyn Fn(GateEvent) -> Pin<Box<dyn Future<Output = ()> + Send>> + Send + Sync>;
+
+thread_local! {
+    // Per-thread controller: lets several single-threaded harness runs live in one process.
+    static LOCAL_GATE: std::cell::RefCell<Option<GateFn>> = const { std::cell::RefCell::new(None) };
+}
+static GLOBAL_GATE: RwLock<Option<GateFn>> = RwLock::new(None);
+
+/// Install (or remove) a process-wide controller.
+pub fn install_gate_controller(f: Option<GateFn>) {
+    *GLOBAL_GATE.write().expect("gate lock") = f;
+}
+
+/// Install (or remove) a controller for tasks announced / run on the current thread only.
+pub fn install_thread_gate_controller(f: Option<GateFn>) {
+    LOCAL_GATE.with(|g| *g.borrow_mut() = f);
+}
+
+fn current() -> Option<GateFn> {
+    if let Some(f) = LOCAL_GATE.with(|g| g.borrow().clone()) {
+        return Some(f);
+    }
+    GLOBAL_GATE.read().expect("gate lock").clone()
+}
+
+pub fn announce(kind: GateKind, key: &[u8]) {
+    if let Some(f) = current() {
+        drop(f(GateEvent::Announce(kind, key.to_vec())));
+    }
+}
+
+pub struct GateGuard(GateKind, Vec<u8>);
+
+impl Drop for GateGuard {
+    fn drop(&mut self) {
+        if let Some(f) = current() {
+            drop(f(GateEvent::Exit(self.0, self.1.clone())));
+        }
+    }
+}
+
+pub async fn gate(kind: GateKind, key: Vec<u8>) -> GateGuard {
+    if let Some(f) = current() {
+        f(GateEvent::Enter(kind, key.clone())).await;
+    }
+    GateGuard(kind, key)
+}
